@@ -14,10 +14,12 @@ import vf
 
 AERGO = 10 ** 18
 L = os.path.join(vf.HARNESS, "engines", "ledger")
-GOV = ("stake", "unstake", "namecreate", "nameupdate", "setowner")
+GOV = ("stake", "unstake", "namecreate", "nameupdate", "setowner", "votebp", "entappend", "entremove", "entconf")
+ENT = ("entappend", "entremove", "entconf")
 KIND = {"transfer": "KTransfer", "normal": "KNormal", "call": "KCall", "deploy": "KDeploy", "feedeleg": "KFeeDeleg",
         "stake": "KStake", "unstake": "KUnstake", "namecreate": "KNameCreate", "nameupdate": "KNameUpdate",
-        "setowner": "KSetOwner"}
+        "setowner": "KSetOwner", "votebp": "KVoteBP", "entappend": "KEnterprise", "entremove": "KEnterprise",
+        "entconf": "KEnterprise"}
 STAKE_DELAY = 86400
 
 
@@ -140,7 +142,7 @@ class Gen:
     def gen_tx(self, bno):
         r = self.r
         w = {"transfer": 30, "normal": 3, "call": 10, "deploy": 7, "feedeleg": 5, "stake": 8, "unstake": 6,
-             "namecreate": 6, "nameupdate": 4, "setowner": 3}
+             "namecreate": 6, "nameupdate": 4, "setowner": 3, "votebp": 5, "entappend": 2, "entremove": 1, "entconf": 2}
         for k, v_ in self.focus.get("weights", {}).items():
             w[k] = v_
         kinds = list(w)
@@ -177,6 +179,12 @@ class Gen:
             if self.staked and r.random() < 0.8:
                 frm = r.choice(list(self.staked))
             t = self.mk(kind, frm, amount=str(r.choice([10000, 5000, 1, 15000, 0]) * AERGO))
+        elif kind == "votebp":
+            if self.staked and r.random() < 0.8:
+                frm = r.choice(list(self.staked))
+            t = self.mk(kind, frm)
+        elif kind in ENT:
+            t = self.mk(kind, frm, dest=r.choice(self.users), name=r.randint(0, 3))
         elif kind == "namecreate":
             nm = r.choice(self.names)
             t = self.mk(kind, frm, name=nm, amount=str(r.choice([1, 1, 1, 2, 0]) * AERGO))
@@ -318,6 +326,21 @@ def run_engine(ctx, binpath, cases, tag):
     return obs
 
 
+def fill_enterprise_oracle(cases, obs):
+    """aergo.enterprise is an oracle for the Ledger model (like the VM): whether the contract accepted the
+    call is taken from the engine's observation (ERROR receipt = GovEntErr) and handed to the model in
+    t_fddeny; what the model then predicts is the executor's handling of that verdict."""
+    for c in cases:
+        flat = [t for b in c["blocks"] for t in b["txs"]]
+        for o in obs.get(c["id"], []):
+            if o["k"] == "tx":
+                t = tx_of(c, o)
+                if t["kind"] in ENT and o["res"] != "rej":
+                    t["fddeny"] = o["res"] == "err"
+                    for u in flat:          # replays share the verdict of ... their own execution only
+                        pass
+
+
 def flat_dump(c, d):
     """Same order as Ledger.Eval.dump."""
     v, lab = [], []
@@ -330,6 +353,10 @@ def flat_dump(c, d):
             s = d["stk"][str(i)]
             v += [int(s["a"]), s["w"], 1 if s["x"] else 0]
             lab += ["staked(%d)" % i, "stakeWhen(%d)" % i, "stakeRec(%d)" % i]
+    for i in c["ids"]:
+        if 10 <= i < 100:
+            v.append(1 if d["stk"][str(i)].get("v") else 0)
+            lab.append("voted(%d)" % i)
     v.append(int(d["total"]))
     lab.append("stakingTotal")
     for n in c["names"]:
@@ -406,7 +433,7 @@ def coq_case(c, init, fixed, name):
         if o[0] or o[1]:
             nms.append("(%s, (%s, %s))" % (Ns(n), Ns(o[0]), Ns(o[1])))
     cfg = ("{| c_version := %d; c_zerofee := %s; c_gas_price := %s; c_chain := 7%%N; c_name_price := %s; c_stake_min := %s; "
-           "c_stake_delay := %d%%N; c_fix_f24 := %s; c_fix_f18 := %s |}" % (c["version"], "true" if c["zerofee"] else "false", init["gasPrice"],
+           "c_stake_delay := %d%%N; c_vote_delay := 86400%%N; c_fix_f24 := %s; c_fix_f18 := %s |}" % (c["version"], "true" if c["zerofee"] else "false", init["gasPrice"],
                                                             init["namePrice"], init["stakeMin"], STAKE_DELAY, "true" if f24_fixed(vf.REPO) else "false", "true" if fixed else "false"))
     vms, blocks, h = [], [], 0
     for b in c["blocks"]:
@@ -537,6 +564,7 @@ def predicates(c, obs):
         return fails
     init = obs[0]
     prev = init["d"]
+    all_txs = [t for b in c["blocks"] for t in b["txs"]]
     executed = {}          # account -> list of nonces executed along the accepted chain
     hashes = set()
     blk_exec, blk_hashes, blk_start = {}, [], prev
@@ -606,7 +634,13 @@ def predicates(c, obs):
                 if c["mode"] == "chain":
                     for i in o.get("included") or []:
                         t = c["blocks"][o["blk"]]["txs"][i]
-                        if t["signer"] != t["from"] and not (200 <= t["from"] < 300) and not t["replayof"]:
+                        want = t["from"]
+                        if 200 <= t["from"] < 300:      # name sender: the owner registered before this block signs
+                            want = blk_start["names"].get(str(t["from"]), [0, 0])[0]
+                        if t["replayof"]:
+                            t0 = all_txs[t["replayof"] - 1]
+                            t = dict(t, signer=t0["signer"])
+                        if t["signer"] != want:
                             fails.append(("C04", "forged-accepted", "a block containing a transaction signed by the wrong key was accepted", {"tx": t}))
                 prev = o["d"]
                 blk_start = prev
@@ -728,6 +762,23 @@ def corpus_cases(pid):
                       dict(T("feedeleg", 11, 2, to=100, plen=5), vm={"res": "sys", "fee": "0", "transfers": [], "writes": [[3, 4]]})]},
                   {"no": 7, "validator": False, "txs": [dict(T("call", 11, 2, to=100, plen=5), vm=vmok(0))]}],
          "staged2", cids={"100": [10, 1]}, ids=[1, 2, 3, 10, 11, 12, 30, 100], ckeys=[[100, 1], [100, 2], [100, 3]])
+    # votes: need a stake; refresh the staking timestamp (an unstake right after a vote is too early); a second
+    # vote must wait VotingDelay; vote by a non-staker; all through the real system contract
+    D = STAKE_DELAY
+    case("exec", [{"no": 10, "validator": False, "txs": [T("stake", 10, 1, amount=str(10000 * AERGO)), T("votebp", 10, 2), T("votebp", 10, 3),
+                                                          T("votebp", 11, 1)]},
+                  {"no": 10 + D, "validator": False, "txs": [T("votebp", 10, 3), T("unstake", 10, 4, amount=str(10000 * AERGO))]},
+                  {"no": 10 + 2 * D - 1, "validator": False, "txs": [T("unstake", 10, 4, amount=str(10000 * AERGO))]},
+                  {"no": 10 + 2 * D, "validator": True, "txs": [T("unstake", 10, 4, amount=str(4000 * AERGO) ), T("unstake", 10, 4, amount=str(10000 * AERGO)),
+                                                                 T("votebp", 10, 5)]}], "votes")
+    # aergo.enterprise (oracle for the model): first appendAdmin succeeds, a non-admin then fails with a
+    # governance RUNTIME error (ERROR receipt, fee 0, nonce advances), the failed tx replayed is rejected
+    entfail = T("entappend", 11, 1, dest=11)
+    for mode in ("exec", "chain"):
+        case(mode, [{"no": 5, "validator": False, "txs": [T("entappend", 10, 1, dest=10), entfail, T("entconf", 10, 2, name=1),
+                                                           T("entappend", 10, 3, dest=12), T("entremove", 12, 1, dest=10)]},
+                    {"no": 6, "validator": False, "txs": [dict(entfail, replayof=2), T("transfer", 11, 2, to=10, amount="5"),
+                                                           T("entappend", 10, 4, dest=11)]}], "enterprise")
     # nonce GAPS (nonce = current + 2) on transactions of every kind that would otherwise succeed: only a
     # faulty producer's block contains them; every one must be rejected and the account nonce must not jump
     gap_setup = [{"no": 10, "validator": False, "txs": [
@@ -742,7 +793,8 @@ def corpus_cases(pid):
             T("stake", 11, 4, amount=str(10000 * AERGO)),
             T("namecreate", 12, 2, name=201, amount=str(AERGO)),
             T("nameupdate", 11, 4, name=200, dest=10, amount=str(AERGO)),
-            T("setowner", 12, 2, dest=11)]
+            T("setowner", 12, 2, dest=11),
+            T("votebp", 10, 4), T("entappend", 12, 2, dest=12)]
     case("exec", gap_setup + [{"no": 10 + STAKE_DELAY, "validator": False, "txs": gaps}], "gaps",
          cids={"100": [10, 1], "101": [12, 2]}, ids=[1, 2, 3, 10, 11, 12, 30, 100, 101])
     # the validator path: one block per gap transaction, kept in the body by a faulty producer
@@ -751,6 +803,18 @@ def corpus_cases(pid):
          + [{"txs": [dict(g, force=True)]} for g in (gaps[0], gaps[1], gaps[3], gaps[6],
                                                        T("nameupdate", 11, 3, name=200, dest=10, amount=str(AERGO)), gaps[8])],
          "gaps", cids={"100": [10, 1]}, ids=[1, 2, 3, 10, 11, 12, 30, 100])
+    # resetAccount must work on a FRESH copy of the old state: the sender already wrote its account earlier in
+    # the block; a FEEDELEGATION call with an amount fails at run time with a fee larger than the contract's
+    # balance -> sender reset is written, receiver reset fails -> the tx is REJECTED and the rollback must
+    # leave the sender's earlier entry untouched (nonce 1); the next tx re-uses nonce 2
+    case("exec", [{"no": 5, "validator": False, "txs": [dict(T("deploy", 10, 1, amount=str(6 * 10 ** 15), plen=10, cid=100), vm=vmok(0))]},
+                  {"no": 6, "validator": False, "txs": [
+                      T("transfer", 11, 1, to=12, amount="5"),
+                      dict(T("feedeleg", 11, 2, to=100, plen=5, amount="1000"), vm={"res": "rt", "fee": str(5 * 10 ** 15), "transfers": [], "writes": []}),
+                      T("transfer", 11, 2, to=12, amount="7"),
+                      dict(T("feedeleg", 10, 2, to=100, plen=5, amount="1000"), vm={"res": "rt", "fee": str(9 * 10 ** 15), "transfers": [], "writes": []}),
+                      T("transfer", 10, 2, to=12, amount="9")]}],
+         "resetalias", cids={"100": [10, 1]}, ids=[1, 2, 3, 10, 11, 12, 30, 100])
     # a FEEDELEGATION call that fails at run time (ERROR receipt: sender nonce advances, contract pays), then
     # the identical transaction again in the next block: must be rejected (nonce too low)
     fdrt = dict(T("feedeleg", 11, 1, to=100, plen=5), vm={"res": "rt", "fee": "1000", "transfers": [], "writes": []})
@@ -773,6 +837,12 @@ def corpus_cases(pid):
         case("chain", [{"txs": [ok(1), ok(2)]}, {"txs": [dict(ok(1), replayof=1, force=True)]}, {"txs": [ok(3)]}], "replay")
         case("chain", [{"txs": [ok(1), dict(ok(2), chainok=False, force=True)]}], "chainid")
         case("chain", [{"txs": [ok(1), dict(ok(2), signer=11)]}], "forged")
+        # sender = a registered NAME: the signature must be the name OWNER's (validator path, real signature workers)
+        case("chain", [{"txs": [T("namecreate", 11, 1, name=200, amount=str(AERGO))]},
+                       {"txs": [T("transfer", 200, 2, to=10, amount="5", signer=11)]},      # control: owner-signed passes
+                       {"txs": [T("transfer", 200, 3, to=10, amount=str(AERGO), signer=10)]},  # foreign key: must be refused
+                       {"txs": [T("transfer", 200, 3, to=10, amount="6", signer=0)]},       # unsigned: must be refused
+                       {"txs": [T("transfer", 200, 3, to=10, amount="7", signer=11)]}], "nameforged")
         # F25: a signed tx whose Account is a name executes twice: as the name's first destination (account
         # 10) and, after the owner re-pointed the name to a contract it created, as that contract
         Tt = T("transfer", 200, 3, to=11, amount=str(AERGO), signer=10)
@@ -820,6 +890,7 @@ def run_check(ctx, pid):
         mode = "chain" if i % chain_every == chain_every - 1 else "exec"
         cases.append(gen_case(ctx.rng, len(cases) + 1, mode, FOCUS[pid], maxtx=40))
     obs = run_engine(ctx, binp, cases, "cases")
+    fill_enterprise_oracle(cases, obs)
     plain = [c for c in cases if c.get("tag") != "f23"]
     mod = eval_model(ctx, cases, obs, fixed, "m")
     bad = [c for c in cases if not compare_chk(go_vectors(c, obs[c["id"]]), mod[c["id"]])]
